@@ -287,6 +287,16 @@ func (h *hist) classify(ex *g9blib.Expect, m *mismatch) {
 				m.Class = "unique-column-flagged-MUL-when-in-another-index"
 			}
 		}
+	case ex.Name == "TRIGGERS" && m.Column == "ACTION_ORDER" && len(m.Key) == 2:
+		if sch := h.cat.Schemas[strings.Trim(m.Key[0], "'")]; sch != nil {
+			if me := sch.Triggers[strings.Trim(m.Key[1], "'")]; me != nil {
+				for _, o := range sch.Triggers {
+					if o.Table != me.Table && o.Timing == me.Timing && o.Event == me.Event && o.Seq < me.Seq {
+						m.Class = "counts-triggers-of-other-tables"
+					}
+				}
+			}
+		}
 	case ex.Name == "SHOW INDEXES" && m.Column == "Table" && h.oldNames[strings.Trim(m.Got, "'")]:
 		m.Class = "old-name-after-rename-table"
 	case ex.Name == "SHOW TRIGGERS" && (m.Kind == "extra-row" || m.Kind == "missing-row") && ex.Schema != "d":
@@ -355,10 +365,22 @@ func colInUse(t *g9blib.Table, col string) bool {
 // plainTable draws a table of the plain palette and normalises it for the model: every constraint
 // named, no literal default on fractional temporals.
 func (h *hist) plainTable(schema *g9blib.MSchema, name string) *g9blib.Table {
-	_, hasParent := schema.Tables["parent"]
+	pt, hasParent := schema.Tables["parent"]
+	if hasParent {
+		if pk := pt.PKCols(); len(pk) != 1 || pk[0] != "id" {
+			hasParent = false
+		}
+	}
 	t := g9blib.GenTable(h.rnd, name, g9blib.GenOpts{Rich: false, WithFK: hasParent, MaxCols: 6})
 	for _, c := range t.Cols {
 		normCol(c)
+	}
+	if hasParent && len(t.FKs) == 0 && h.rnd.Intn(3) == 0 && t.Col("pid") == nil {
+		// make sure foreign keys are common: a dedicated, indexed reference column
+		it := g9blib.TypeSpec{SQL: "INT", Class: "int", ColType: "int", DataType: "int", SRID: -1}
+		t.Cols = append(t.Cols, &g9blib.Col{Name: "pid", T: it})
+		acts := []string{"", "CASCADE", "SET NULL", "RESTRICT", "NO ACTION"}
+		t.FKs = append(t.FKs, &g9blib.FK{Cols: []string{"pid"}, Parent: "parent", ParentCol: []string{"id"}, OnDelete: acts[h.rnd.Intn(5)], OnUpdate: acts[h.rnd.Intn(5)]})
 	}
 	for i, ck := range t.Checks {
 		ck.Name = fmt.Sprintf("%s_ck%d", name, i)
@@ -715,7 +737,7 @@ func (h *hist) nextStep() *step {
 				fk := t.FKs[k]
 				return &step{"drop-foreign-key", "ALTER TABLE " + qt + " DROP FOREIGN KEY " + g9blib.Q(fk.Name), func() { t.FKs = append(t.FKs[:k], t.FKs[k+1:]...) }}
 			}
-			if _, ok := s.Tables["parent"]; !ok {
+			if pt, ok := s.Tables["parent"]; !ok || len(pt.PKCols()) != 1 || pt.PKCols()[0] != "id" {
 				continue
 			}
 			var c *g9blib.Col
@@ -881,6 +903,9 @@ func runHistory(r *core.Run, rnd *rand.Rand, caseNo, steps int) {
 				// a panic in DDL is not this property's failure; the history cannot be trusted further
 				r.Inconclusive("ddl-panics")
 				r.Count("ddl-panic:"+res.Panic.Site, 1)
+				if debug {
+					fmt.Fprintf(os.Stderr, "DDL-PANIC %s: %s\n   history: %s\n", res.Panic.Value, st.sql, strings.Join(h.log, " ;; "))
+				}
 				return
 			}
 			accepted = res.Err == nil
@@ -909,6 +934,15 @@ func runHistory(r *core.Run, rnd *rand.Rand, caseNo, steps int) {
 			}
 			for _, m := range mm {
 				h.classify(ex, m)
+				if !accepted && !r.IsKnown(m.sig()) {
+					// the rejected statement changed the catalog (DDL atomicity is not this property): the model cannot follow
+					r.Inconclusive("rejected-ddl-had-effects")
+					r.Count("rejected-ddl-had-effects:"+kind, 1)
+					if debug {
+						fmt.Fprintf(os.Stderr, "REJECTED-BUT-EFFECT %s: %s\n", m.sig(), core.Clip(h.log[len(h.log)-1], 300))
+					}
+					return
+				}
 				if !r.IsKnown(m.sig()) {
 					bad = true // later steps would only repeat an unknown difference; known ones do not stop the history
 				}
